@@ -118,6 +118,11 @@ class MultipartDecoder:
             % (LINE_BREAK, re.escape(boundary), LINE_BREAK, LINE_BREAK),
             re.MULTILINE,
         )
+        # The first boundary at the end of the data, followed by any amount
+        # of padding but not yet by its line break.
+        self._incomplete_preamble_re = re.compile(
+            rb"--%s[^\S\n\r]*\Z" % re.escape(boundary)
+        )
         self._search_position = 0
         self._parts_decoded = 0
 
@@ -164,9 +169,19 @@ class MultipartDecoder:
                 # Update the search start position to be equal to the
                 # current buffer length (already searched) minus a
                 # safe buffer for part of the search target.
-                self._search_position = max(
+                position = max(
                     0, len(self.buffer) - len(self.boundary) - SEARCH_EXTRA_LENGTH
                 )
+                # The padding after the boundary can be longer than that,
+                # don't skip a boundary that only lacks its line break.
+                incomplete = self._incomplete_preamble_re.search(
+                    self.buffer, self._search_position
+                )
+
+                if incomplete is not None:
+                    position = min(position, max(0, incomplete.start() - 2))
+
+                self._search_position = position
 
         elif self.state == State.PART:
             match = BLANK_LINE_RE.search(self.buffer, self._search_position)
